@@ -302,6 +302,16 @@ type tpBehaviour struct {
 	NTasks   int                 `json:"ntasks"`
 	Keys     map[string]string   `json:"keys"` // producer -> key
 	Origin   string              `json:"origin"`
+	ChanCap  int                 `json:"chancap"` // capacity of the per-flow channels (0: the code's own 128)
+}
+
+// a pool whose per-flow channels have the capacity the model was checked with, so that the spill into the overflow FIFO is reached
+// with the model's two or three tasks (the production constructor differs in nothing but the constant)
+func tpNewPool(chanCap int) *UdpTaskPool {
+	if chanCap <= 0 {
+		return NewUdpTaskPool()
+	}
+	return &UdpTaskPool{queueChPool: sync.Pool{New: func() any { return make(chan UdpTask, chanCap) }}}
 }
 
 var tpProducerGate = map[string]string{"loaded": "acquire.loaded", "create": "acquire.create", "store": "acquire.store",
@@ -321,7 +331,7 @@ func tpSetup(t *testing.T) func() {
 // replays one schedule; returns "" or a drift description
 func tpReplay(b *tpBehaviour, res *verifutil.Result, idx int) string {
 	s := newVSched()
-	w := &tpWorld{s: s, pool: NewUdpTaskPool(), accepted: map[string][]tpTask{}}
+	w := &tpWorld{s: s, pool: tpNewPool(b.ChanCap), accepted: map[string][]tpTask{}}
 	verifYieldHook = s.hook
 	prods := map[string]*vActor{}
 	total := 0
@@ -398,8 +408,11 @@ func tpReplay(b *tpBehaviour, res *verifutil.Result, idx int) string {
 				break
 			}
 			got := s.step(c)
-			if act.A == "CPop" && got == "convoy.top" {
-				got = s.step(c) // a stale wake token was consumed: one more turn of the loop
+			for n := 0; act.A == "CPopOv" && got == "convoy.top" && n < 4; n++ {
+				// a stale wake token was consumed: one more turn of the loop (top -> channel still empty -> popov -> nothing -> wait)
+				if got = s.step(c); got == "convoy.popov" {
+					got = s.step(c)
+				}
 			}
 			if act.A == "CRecycle" {
 				if got != "convoy.exit" {
